@@ -230,9 +230,23 @@ static std::string augns(Toks& t) {
 
 // ---------------------------------------------------------------------------------- unscented transform, linear / noise layouts
 
-// ut mode nx nz ny k a b kap valid | A (ny x (nx+nz)) | bvec (ny) | means (nx x k) | covs (nx x nx*k) | Qin (nz x nz) | [Nadd (ny x ny)]
+// ut mode[:z1+z2+..] nx nz ny k a b kap valid | A (ny x (nx+nz)) | bvec (ny) | means (nx x k) | covs (nx x nx*k) | Qin (nz x nz) | [Nadd (ny x ny)]
 static std::string ut(Toks& t) {
     std::string mode = t.tok();
+    // "mode:z1+z2+...": the noise rows are appended by one augmentWithNoise call per block (diagonal blocks of Qin)
+    std::vector<long> blocks;
+    {
+        std::size_t c = mode.find(':');
+        if (c != std::string::npos) {
+            std::string rest = mode.substr(c + 1); mode = mode.substr(0, c);
+            std::size_t p = 0;
+            while (p <= rest.size()) {
+                std::size_t q = rest.find('+', p); if (q == std::string::npos) q = rest.size();
+                if (q == p) throw vh::BadArgs("noise blocks");
+                blocks.push_back(std::stol(rest.substr(p, q - p))); p = q + 1;
+            }
+        }
+    }
     long nx = t.nat(), nz = t.nat(), ny = t.nat(), k = t.nat();
     double a = t.dbl(), b = t.dbl(), kap = t.dbl(); long vcode = t.nat(); bool valid = (vcode == 1);
     const int mfail = valid ? 0 : (vcode == 2 ? 4 : 2);
@@ -243,7 +257,13 @@ static std::string ut(Toks& t) {
     bool additive = (mode == "asm" || mode == "amm");
     MatrixXd Nadd; if (additive) Nadd = t.mat(ny, ny);
     t.done();
-    if (nz > 0) g.augmentWithNoise(Qin);
+    if (blocks.empty()) { if (nz > 0) g.augmentWithNoise(Qin); }
+    else {
+        long sum = 0; for (long z : blocks) { if (z <= 0) throw vh::BadArgs("noise block"); sum += z; }
+        if (sum != nz) throw vh::BadArgs("noise blocks do not add up");
+        long off = 0;
+        for (long z : blocks) { MatrixXd Qb = Qin.block(off, off, z, z); g.augmentWithNoise(Qb); off += z; }
+    }
     VectorDescription in(nx, 0, nz), out(ny);
     sigma_point::UTWeight w(in, a, b, kap);
     Snapshot s0(g);
